@@ -37,6 +37,17 @@ def run(rep, tier, seed, replay):
     for c in aimed:
         c.labels["aimed"] = True
     cases += aimed
+    # glob walks `<directory>/**` (and `**`) under ReadTarget: the link behaviour reaches the walk below the prefix
+    globbed = walklib.gen_cases(seed + 21, n // 2, faults=True, stack=lambda r, v, d: ("-", "-", []), bounds="none", mode="g", link="t")
+    rg = __import__("random").Random(seed + 22)
+    for c in globbed:
+        dirs_ = [pth for pth, k in c.fs.nodes.items() if k[0] == "d"]
+        d = rg.choice(dirs_) if dirs_ and rg.random() < 0.8 else ()
+        c.base, c.expr = "", ("/".join(walkgen.esc(x) for x in d) + "/**" if d else "**")
+        c.labels["glob-prefix"] = "/".join(d)
+        c.owned = False
+    globbed = [c for c in globbed if walkgen.admissible(c.fs, walkgen.base_path(c.labels["glob-prefix"]), True)]
+    cases += globbed
     if replay is not None:
         cases = [walklib.case_from(replay["input"])]
     # the fault-free twin: unreadable directories become empty readable ones
@@ -119,6 +130,24 @@ def run(rep, tier, seed, replay):
                                       c.describe(), impl=c.impl[:400])
                     else:
                         rep.stats["stacks that prune nothing pass every error item through"] += 1
+        if c.stack == "-" and (c.mn, c.mx) == ("-", "-") and c.mode == "g" and c.link == "t" and c.base == "" and (c.expr == "**" or c.expr.endswith("/**")) \
+                and not any(ch in c.expr[:-3] for ch in "*?[{<(") and unhx(c.f.get("base", "-")) == "@R":
+            # every dangling / re-entrant link beneath the glob's prefix is one error item naming it
+            import re as _re
+            prefix = _re.sub(chr(92) * 2 + "(.)", lambda mo: mo.group(1), c.expr[:-3]) if c.expr != "**" else ""
+            top = "@R" + ("/" + prefix if prefix else "")
+            canon2 = lambda p: "/".join(x for x in (p or "").split("/") if x)
+            cerrs2 = [canon2(p) for p, _d in errs]
+            ulist2 = [p for p, k, _d in nodes if k == "u"]
+            behind2 = lambda p: any(p.startswith(l + "/") for l, k, _ in nodes if k.startswith("l"))
+            for lp, k, _d in nodes:
+                if k in ("lc", "ld") and (lp.startswith(top + "/")) and not behind2(lp) and not any(lp.startswith(u + "/") for u in ulist2):
+                    if cerrs2.count(canon2(lp)) != 1:
+                        rep.violation("oracle", "the %s link %r beneath the prefix of the glob %r (links read as their targets) is reported by %d error items, not one" % (
+                            "re-entrant" if k == "lc" else "dangling", lp, c.expr, cerrs2.count(canon2(lp))), c.describe(), impl=c.impl[:400])
+                        break
+            else:
+                rep.stats["glob walk: one error item per dangling / re-entrant link beneath the prefix"] += 1
         if c.stack == "-" and (c.mn, c.mx) == ("-", "-") and c.mode == "p":
             ulist = [p for p, k, _d in nodes if k == "u"]
             base_p = unhx(c.f.get("base", "-"))
